@@ -1,4 +1,4 @@
-import N0Verif.Proofs.XPathSelect
+import N0Verif.Proofs.XPathSelect2
 /-!
 # C06 — wildcard and predicate steps select exactly the matching elements, in order
 
@@ -10,12 +10,14 @@ Reading.  "Records" are dicts; the reference results are the list comprehensions
 Field names are plain names (`PlainKey`, `FieldKey`), the literal is a plain text (`PlainLit`), written
 bare or quoted (`LitSpell`), the operator as written or normalised (`OpSpell`).
 
-The model follows the code **with the fix patches C06-a and C06-c applied** (numeric fields are
-compared as numbers, the empty literal is the empty text).
+The model follows the code **with the fix patches C06-a, C06-c, C06-b and C06-e applied** (numeric fields
+are compared as numbers, the empty literal is the empty text, `'..'` keeps the list index of the record it
+returns to, a predicate on an empty list is a miss).
 
-What is proved (`…_partial`): everything for `P` = a plain key of the root dict (any record list, any
-length, any mix of present / absent fields).  What stays a statement (`…_stmt`): `P` an arbitrary
-concrete path, and chained selections (known finding C06-b, `C06_chained_cex`).
+What is proved: `C06_star`, `C06_pred` (= `C06_star_stmt`, `C06_pred_stmt`: the record list at ANY position of
+the tree, canonical path `P`), the `…_partial` theorems for `P` = a plain key of the root written without the
+leading `/`, `C06_star_spelled` (any spelling of `P`), and chained selections `C06_chained`
+(= `C06_chained_stmt`: the nested list of per-parent selections).  No statement is left open.
 -/
 namespace N0.C06
 open N0 N0.Py N0.Val N0.XPath
@@ -162,7 +164,8 @@ def C06_star_stmt : Prop :=
       first fuel (.dict cls kvs) xp d = (.dict cls kvs, .ok (firstOf (selectF f rs) d))
 
 /-- **full statement (predicates).**  For the record list at any position `p`, `P[k op v]/f` and
-`P/k[text() op v]/../f` return `f` of exactly the records whose `k` passes the comparison. -/
+`P/k[text() op v]/../f` return `f` of exactly the records whose `k` passes the comparison (`get`, item
+access, `first`); the tree is unchanged. -/
 def C06_pred_stmt : Prop :=
   ∀ (cls : Cls) (kvs : List (Str × Val)) (p : Pos) (k f opx op vq v : Str) (lc : Cls) (rs : List Val) (d : Val),
     PlainPos p → p ≠ [] → FieldKey k → PlainKey f → OpSpell opx op → LitSpell vq v → PlainLit v →
@@ -170,25 +173,43 @@ def C06_pred_stmt : Prop :=
     ∃ n, ∀ fuel ≥ n, ∀ xp ∈ [slash ++ renderPos p ++ bracket (k ++ opx ++ vq) ++ slash ++ f,
                              slash ++ renderPos p ++ slash ++ k ++ bracket (sTextFn ++ opx ++ vq) ++ slash ++ ['.', '.'] ++ slash ++ f],
       XPath.get fuel (.dict cls kvs) xp d
-        = (.dict cls kvs, .ok (selected (selectWhere k f (condTest op (.str v)) rs) d))
+        = (.dict cls kvs, .ok (selected (selectWhere k f (condTest op (.str v)) rs) d)) ∧
+      getItem fuel (.dict cls kvs) xp = (.dict cls kvs, selectedItem (selectWhere k f (condTest op (.str v)) rs)) ∧
+      first fuel (.dict cls kvs) xp d = (.dict cls kvs, .ok (firstOf (selectWhere k f (condTest op (.str v)) rs) d))
 
-/-- **full statement (chained selections, two levels).**  `name[k1=v1]/items[k2=v2]/f` returns, for every
-outer record that matches and has a non-empty inner selection, the list of its inner selections.
-Refuted on the pinned tree by `C06_chained_cex` (finding C06-b). -/
+/-- the inner selection in one outer record's `items` value: `[it[f] for it in items if k2 in it and test2(it[k2])
+and f in it]`, nothing when that is empty (or `items` is not a list) -/
+def innerSel (k2 f : Str) (test2 : Val → Bool) : Val → Option Val
+  | .list _ xs => if (selectWhere k2 f test2 xs).isEmpty then Option.none else some (.list .n0 (selectWhere k2 f test2 xs))
+  | _ => Option.none
+
+/-- the nested list of per-parent selections: for every outer record that passes the outer test and has
+`items`, the list of its inner selections — when that is not empty -/
+def selectChained (k1 items : Str) (test1 : Val → Bool) (k2 f : Str) (test2 : Val → Bool) (rs : List Val) : List Val :=
+  (selectWhere k1 items test1 rs).filterMap (innerSel k2 f test2)
+
+/-- the inner lists: `items`, where an outer record has it, is a list of dict records whose `k2` values are
+comparable with the literal -/
+def InnerLists (items k2 v2 : Str) (rs : List Val) : Prop :=
+  ∀ c kvs' x, Val.dict c kvs' ∈ rs → lookup items kvs' = some x →
+    ∃ lc xs, x = .list lc xs ∧ (∀ y ∈ xs, isDict y = true) ∧ ComparableK k2 v2 xs
+
+/-- **full statement (chained selections, two levels).**  For the record list at any position `p`,
+`P[k1 op v1]/items[k2 op v2]/f` returns, for every outer record that matches and has a non-empty inner
+selection, the list of its inner selections (`get`, item access); an outer record whose inner list is empty contributes nothing.  Proved:
+`C06_chained` (the code with fixes C06-b and C06-e). -/
 def C06_chained_stmt : Prop :=
-  ∀ (cls : Cls) (kvs : List (Str × Val)) (name k1 v1 items k2 v2 f : Str) (lc : Cls) (rs : List Val) (d : Val),
-    PlainKey name → FieldKey k1 → PlainLit v1 → PlainKey items → FieldKey k2 → PlainLit v2 → PlainKey f →
-    lookup name kvs = some (.list lc rs) → (∀ r ∈ rs, isDict r = true) →
+  ∀ (cls : Cls) (kvs : List (Str × Val)) (p : Pos) (k1 opx1 op1 vq1 v1 items k2 opx2 op2 vq2 v2 f : Str) (lc : Cls)
+    (rs : List Val) (d : Val),
+    PlainPos p → p ≠ [] → FieldKey k1 → OpSpell opx1 op1 → LitSpell vq1 v1 → PlainLit v1 → PlainKey items →
+    FieldKey k2 → OpSpell opx2 op2 → LitSpell vq2 v2 → PlainLit v2 → PlainKey f →
+    getAt (.dict cls kvs) p = some (.list lc rs) → (∀ r ∈ rs, isDict r = true) → ComparableK k1 v1 rs →
+    InnerLists items k2 v2 rs →
     ∃ n, ∀ fuel ≥ n,
-      (XPath.get fuel (.dict cls kvs)
-          (name ++ bracket (k1 ++ ['='] ++ v1) ++ slash ++ items ++ bracket (k2 ++ ['='] ++ v2) ++ slash ++ f) d).2
-        = .ok (selected
-            ((selectWhere k1 items (fieldEq v1) rs).filterMap (fun its =>
-              match its with
-              | .list _ xs =>
-                let sel := selectWhere k2 f (fieldEq v2) xs
-                if sel.isEmpty then Option.none else some (.list .n0 sel)
-              | _ => Option.none)) d)
+      let xp := slash ++ renderPos p ++ bracket (k1 ++ opx1 ++ vq1) ++ slash ++ items ++ bracket (k2 ++ opx2 ++ vq2) ++ slash ++ f
+      let vals := selectChained k1 items (condTest op1 (.str v1)) k2 f (condTest op2 (.str v2)) rs
+      XPath.get fuel (.dict cls kvs) xp d = (.dict cls kvs, .ok (selected vals d)) ∧
+      getItem fuel (.dict cls kvs) xp = (.dict cls kvs, selectedItem vals)
 
 /-! ## proved: the record list is stored under a plain key of the root -/
 
@@ -281,6 +302,119 @@ theorem C06_implicit_star_path_partial (cls : Cls) (kvs : List (Str × Val)) (p 
   intro xp
   have := star_implicit_path cls kvs p f lc rs d hp hne hf hget hrs fuel hfuel
   simp only [selectF_eq] at this
+  exact this
+
+/-- **C06 (fan-out, any position).**  For the list of dict records at any position `p` of the tree
+(canonical path `P`, keys and indexes, as `xpath()` prints it), `P[*]/f` and the shorthand `P/f` return
+`[r[f] for r in rs if f in r]` through `get` (the default when empty), item access (`IndexError` when
+empty) and `first` (a single match unwrapped); the tree is unchanged.  This is `C06_star_stmt`. -/
+theorem C06_star : C06_star_stmt := by
+  intro cls kvs p f lc rs d hp hne hf hget hrs
+  refine ⟨2 * p.length + rs.length + 5, fun fuel hfuel xp hxp => ?_⟩
+  simp only [List.mem_cons, List.not_mem_nil, or_false] at hxp
+  rcases hxp with rfl | rfl
+  · have := sel2_star_explicit_path cls kvs p f lc rs d hp hne hf hget hrs fuel hfuel
+    simp only [selectF_eq] at this
+    exact this
+  · exact C06_implicit_star_path_partial cls kvs p f lc rs d hp hne hf hget hrs fuel hfuel
+
+/-- **C06 (predicates, any position).**  For the list of dict records at any position `p` of the tree
+(canonical path `P`), `P[k op v]/f` and `P/k[text() op v]/../f` — any operator and literal spelling — return `f`
+of exactly the records that have `k` and whose `k` passes the comparison, in list order, through `get`, item
+access and `first`; the tree is unchanged.  This is `C06_pred_stmt`.  (The `'..'` step splits the `found` text
+of the walk — the canonical path of `P[j]/k` — drops the last piece and resolves `P[j]` again from the root.) -/
+theorem C06_pred : C06_pred_stmt := by
+  intro cls kvs p k f opx op vq v lc rs d hp hne hk hf hop hlit hv hget hrs hg
+  refine ⟨4 * p.length + rs.length + 14, fun fuel hfuel xp hxp => ?_⟩
+  simp only [List.mem_cons, List.not_mem_nil, or_false] at hxp
+  rcases hxp with rfl | rfl
+  · have := sel2_cond_api cls kvs p k f opx op vq v lc rs d hp hne hk hf hop hlit hv hget hrs hg.guard fuel hfuel
+    simp only [selectWhere_eq] at this
+    exact this
+  · have := sel2_textform_api cls kvs p k f opx op vq v lc rs d hp hk hf hop hlit hv hget hrs hg.guard fuel hfuel
+    simp only [selectWhere_eq] at this
+    exact this
+
+/-- **C06 (`=`, `!=`, `~` at any position)** against the independent references: `P[k=v]/f` selects the records
+whose `k` equals `v` (`fieldEq`), `P[k!=v]/f` those that have `k` and differ, `P[k~v]/f` those whose `k` contains
+`v` (`fieldContains`); `get` shown, item access and `first` as in `C06_pred`. -/
+theorem C06_eq_ne_contains (cls : Cls) (kvs : List (Str × Val)) (p : Pos) (k f vq v : Str) (lc : Cls) (rs : List Val) (d : Val)
+    (hp : PlainPos p) (hne : p ≠ []) (hk : FieldKey k) (hf : PlainKey f) (hlit : LitSpell vq v) (hv : PlainLit v)
+    (hget : getAt (.dict cls kvs) p = some (.list lc rs)) (hrs : ∀ r ∈ rs, isDict r = true) (hg : ComparableK k v rs) :
+    ∃ n, ∀ fuel ≥ n,
+      XPath.get fuel (.dict cls kvs) (slash ++ renderPos p ++ bracket (k ++ ['='] ++ vq) ++ slash ++ f) d
+        = (.dict cls kvs, .ok (selected (selectWhere k f (fieldEq v) rs) d)) ∧
+      XPath.get fuel (.dict cls kvs) (slash ++ renderPos p ++ bracket (k ++ ['!', '='] ++ vq) ++ slash ++ f) d
+        = (.dict cls kvs, .ok (selected (selectWhere k f (fun x => !fieldEq v x) rs) d)) ∧
+      XPath.get fuel (.dict cls kvs) (slash ++ renderPos p ++ bracket (k ++ ['~'] ++ vq) ++ slash ++ f) d
+        = (.dict cls kvs, .ok (selected (selectWhere k f (fieldContains v) rs) d)) := by
+  obtain ⟨n1, h1⟩ := C06_pred cls kvs p k f _ _ vq v lc rs d hp hne hk hf .eq1 hlit hv hget hrs hg
+  obtain ⟨n2, h2⟩ := C06_pred cls kvs p k f _ _ vq v lc rs d hp hne hk hf .ne hlit hv hget hrs hg
+  obtain ⟨n3, h3⟩ := C06_pred cls kvs p k f _ _ vq v lc rs d hp hne hk hf .in1 hlit hv hget hrs hg
+  refine ⟨n1 + n2 + n3, fun fuel hfuel => ⟨?_, ?_, ?_⟩⟩
+  · have := (h1 fuel (by omega) _ (List.mem_cons_self ..)).1
+    rwa [selectWhere_congr k f _ (fieldEq v) rs (fun c kvs' kv hm hlk => condTest_eq v kv (hg.guard c kvs' kv hm hlk))] at this
+  · have := (h2 fuel (by omega) _ (List.mem_cons_self ..)).1
+    rwa [selectWhere_congr k f _ (fun x => !fieldEq v x) rs (fun c kvs' kv hm hlk => condTest_ne v kv (hg.guard c kvs' kv hm hlk))] at this
+  · have := (h3 fuel (by omega) _ (List.mem_cons_self ..)).1
+    rwa [selectWhere_congr k f _ (fieldContains v) rs (fun c kvs' kv _ _ => condTest_contains v kv)] at this
+
+theorem somes_cons_toList (o : Option Val) (os : List (Option Val)) : somes (o :: os) = o.toList ++ somes os := by
+  cases o <;> rfl
+
+theorem selectWhere_cons (k f : Str) (t : Val → Bool) (r : Val) (rs : List Val) :
+    selectWhere k f t (r :: rs) = selectWhere k f t [r] ++ selectWhere k f t rs := by
+  cases r <;> simp [selectWhere]
+
+theorem chained_head (k1 op1 : Str) (v1 : CondVal) (items k2 f op2 : Str) (v2 : CondVal) (r : Val) :
+    (selectWhere k1 items (condTest op1 v1) [r]).filterMap (innerSel k2 f (condTest op2 v2))
+      = (sel2Gate k1 op1 v1 r (sel2Inner items k2 f op2 v2 true r)).toList := by
+  cases r with
+  | dict c kvs =>
+    cases hk : lookup k1 kvs with
+    | none => simp [sel2Gate, selectWhere, hk]
+    | some kv =>
+      cases ht : condTest op1 v1 kv with
+      | false => cases hi : lookup items kvs <;> simp [sel2Gate, selectWhere, hk, ht, hi]
+      | true =>
+        cases hi : lookup items kvs with
+        | none => simp [sel2Gate, sel2Inner, selectWhere, hk, ht, hi]
+        | some x =>
+          cases x with
+          | list lc xs =>
+            have hsel := selectWhere_eq k2 f op2 v2 xs
+            cases he : (selectWhere k2 f (condTest op2 v2) xs).isEmpty <;>
+              simp [sel2Gate, sel2Inner, selectWhere, hk, ht, hi, innerSel, hsel, he, collect]
+          | _ => simp [sel2Gate, sel2Inner, selectWhere, hk, ht, hi, innerSel]
+  | _ => simp [sel2Gate, selectWhere]
+
+theorem chained_eq (k1 op1 : Str) (v1 : CondVal) (items k2 f op2 : Str) (v2 : CondVal) (rs : List Val) :
+    sel2Chained k1 op1 v1 items k2 f op2 v2 true rs
+      = selectChained k1 items (condTest op1 v1) k2 f (condTest op2 v2) rs := by
+  unfold sel2Chained sel2Sel selectChained
+  induction rs with
+  | nil => rfl
+  | cons r rs ih =>
+    rw [List.map_cons, somes_cons_toList, ih, selectWhere_cons, List.filterMap_append, chained_head]
+
+/-- **C06 (chained selections; fixes C06-b, C06-e).**  For the record list at any position `p`,
+`P[k1 op v1]/items[k2 op v2]/f` (any operator and literal spellings) returns the nested list of per-parent
+selections — for every outer record that passes the outer test, in list order, the list of `f` of its `items`
+records that pass the inner test, outer records with nothing selected (no `items`, an empty `items`, no match)
+left out — through `get` (the default when nothing is selected at all) and item access (`IndexError`); the
+tree is unchanged.  Hypothesis `InnerLists`: `items`, where present, is a list of dict records.
+This is `C06_chained_stmt`. -/
+theorem C06_chained : C06_chained_stmt := by
+  intro cls kvs p k1 opx1 op1 vq1 v1 items k2 opx2 op2 vq2 v2 f lc rs d hp hne hk1 hop1 hlit1 hv1 hitems hk2 hop2 hlit2 hv2 hf
+    hget hrs hg hin
+  refine ⟨6 * p.length + rs.length + (rs.map (sel2InnerLen items)).sum + 32, fun fuel hfuel => ?_⟩
+  have hok : Sel2InnerOK items k2 (.str v2) rs := by
+    intro c kvs' x hm hl
+    obtain ⟨lc', xs, rfl, hds, hcmp⟩ := hin c kvs' x hm hl
+    exact ⟨lc', xs, rfl, hds, hcmp.guard⟩
+  have := sel2_chained_api cls kvs p k1 opx1 op1 vq1 v1 items k2 opx2 op2 vq2 v2 f lc rs d hp hne hk1 hop1 hlit1 hv1 hitems hk2
+    hop2 hlit2 hv2 hf hget hrs hg.guard hok fuel hfuel
+  simp only [chained_eq] at this
   exact this
 
 /-- the general form of the three predicate theorems: any operator spelling, with `first` -/
@@ -399,6 +533,25 @@ example : (XPath.get 20 deep ['/', '/', 'a', '[', '1', ']', '/', 'f'] .none) = (
   (C06_implicit_star_path_partial .n0 _ [.key ['a'], .idx 1] ['f'] .plain recsList .none
     ⟨⟨by decide, by decide, by decide⟩, trivial⟩ (by simp) plainKey_f rfl (by decide) 20 (by decide)).1
 
+/-- `C06_star` on the same tree: the explicit `//a[1][*]/f` (the last step of `P` is an index, so `[*]` is a
+token of its own after `replace("][","]/[")`) -/
+example : ∃ n, ∀ fuel ≥ n, (XPath.get fuel deep ['/', '/', 'a', '[', '1', ']', '[', '*', ']', '/', 'f'] .none)
+    = (deep, .ok (.list .n0 [.str ['x'], .str ['y']])) := by
+  obtain ⟨n, h⟩ := C06_star .n0 [(['a'], .list .plain [.str ['p'], .list .plain recsList])] [.key ['a'], .idx 1] ['f'] .plain recsList .none
+    ⟨⟨by decide, by decide, by decide⟩, trivial⟩ (by simp) plainKey_f rfl (by decide)
+  exact ⟨n, fun fuel hf => (h fuel hf _ (List.mem_cons_self ..)).1⟩
+
+/-- `C06_pred` on the same tree: `//a[1][k='1']/f` (a predicate on a list that is itself a list element) -/
+example : ∃ n, ∀ fuel ≥ n, (XPath.get fuel deep ['/', '/', 'a', '[', '1', ']', '[', 'k', '=', '\'', '1', '\'', ']', '/', 'f'] .none)
+    = (deep, .ok (.list .n0 [.str ['x'], .str ['y']])) := by
+  obtain ⟨n, h⟩ := C06_pred .n0 [(['a'], .list .plain [.str ['p'], .list .plain recsList])] [.key ['a'], .idx 1] ['k'] ['f']
+    ['='] _ _ ['1'] .plain recsList .none ⟨⟨by decide, by decide, by decide⟩, trivial⟩ (by simp) fieldKey_k plainKey_f .eq1
+    (.sq ['1']) plainLit_1 rfl (by decide) (by decide)
+  refine ⟨n, fun fuel hf => ?_⟩
+  have := (h fuel hf _ (List.mem_cons_self ..)).1
+  rw [show selectWhere ['k'] ['f'] (condTest ['=', '='] (.str ['1'])) recsList = [.str ['x'], .str ['y']] by decide] at this
+  exact this
+
 /-! the selecting forms on a concrete record list, evaluated by the model (all five forms) -/
 example : (XPath.get 60 recs ['r', '[', '*', ']', '/', 'f'] .none).2 = .ok (.list .n0 [.str ['x'], .str ['y']]) := by decide
 example : (XPath.get 60 recs ['r', '/', 'f'] .none).2 = .ok (.list .n0 [.str ['x'], .str ['y']]) := by decide
@@ -435,13 +588,66 @@ theorem C06_empty_literal_example :
     ∧ (XPath.get 60 recsEmpty ['r', '[', 'k', '!', '=', '\'', '\'', ']', '/', 'f'] (.str ['D'])).2 = .ok (.list .n0 [.str ['z']]) := by
   decide +kernel
 
-/-- C06-b: chained predicates return the records of the wrong parent -/
-def orders : Val :=
-  .dict .n0 [(['o'], .list .plain [
-    .dict .plain [(['i'], .str ['1']), (['t'], .list .plain [.dict .plain [(['s'], .str ['B']), (['q'], .str ['2'])]])],
-    .dict .plain [(['i'], .str ['2']), (['t'], .list .plain [.dict .plain [(['s'], .str ['B']), (['q'], .str ['3'])]])]])]
-theorem C06_chained_cex :
+/-- (was finding C06-b, repaired by fix C06-b) chained predicates return the records of the selected
+parent: `o[i=2]/t[s=B]/q` is the `q` of order 2 (before the fix: `[['2']]`, the item of order 1) -/
+def ordersList : List Val :=
+  [.dict .plain [(['i'], .str ['1']), (['t'], .list .plain [.dict .plain [(['s'], .str ['B']), (['q'], .str ['2'])]])],
+   .dict .plain [(['i'], .str ['2']), (['t'], .list .plain [.dict .plain [(['s'], .str ['B']), (['q'], .str ['3'])],
+                                                              .dict .plain [(['s'], .str ['C']), (['q'], .str ['4'])]])],
+   .dict .plain [(['i'], .str ['2']), (['t'], .list .plain [.dict .plain [(['s'], .str ['A']), (['q'], .str ['5'])]])],
+   .dict .plain [(['i'], .str ['2'])],
+   .dict .plain [(['i'], .str ['2']), (['t'], .list .plain [])],
+   .dict .plain [(['i'], .str ['2']), (['t'], .list .plain [.dict .plain [(['s'], .str ['B']), (['q'], .str ['6'])],
+                                                              .dict .plain [(['s'], .str ['B']), (['q'], .str ['7'])]])]]
+def orders : Val := .dict .n0 [(['o'], .list .plain ordersList)]
+theorem C06_chained_example :
     (XPath.get 80 orders ['o', '[', 'i', '=', '2', ']', '/', 't', '[', 's', '=', 'B', ']', '/', 'q'] .none).2
-      = .ok (.list .n0 [.list .n0 [.str ['2']]]) := by decide +kernel
+      = .ok (.list .n0 [.list .n0 [.str ['3']], .list .n0 [.str ['6'], .str ['7']]]) := by decide +kernel
+
+theorem plainKey_t : PlainKey ['t'] := ⟨by decide, by decide, by decide⟩
+theorem plainKey_q : PlainKey ['q'] := ⟨by decide, by decide, by decide⟩
+theorem fieldKey_i : FieldKey ['i'] := ⟨⟨by decide, by decide, by decide⟩, ⟨by decide, by decide, by decide⟩, by decide⟩
+theorem fieldKey_s : FieldKey ['s'] := ⟨⟨by decide, by decide, by decide⟩, ⟨by decide, by decide, by decide⟩, by decide⟩
+theorem plainLit_2 : PlainLit ['2'] := ⟨by decide, by decide, by decide⟩
+theorem plainLit_B : PlainLit ['B'] := ⟨by decide, by decide, by decide⟩
+
+/-- the reference result on that tree: two of the five matching orders have an inner selection -/
+example : selectChained ['i'] ['t'] (fieldEq ['2']) ['s'] ['q'] (fieldEq ['B']) ordersList
+    = [.list .n0 [.str ['3']], .list .n0 [.str ['6'], .str ['7']]] := by decide
+
+/-- the hypotheses of `C06_chained` are inhabited (outer records with and without `t`, matching and not, inner
+lists that are empty or have none / one / two selected records) -/
+example : ∃ n, ∀ fuel ≥ n,
+    XPath.get fuel orders ['/', '/', 'o', '[', 'i', '=', '2', ']', '/', 't', '[', 's', '=', 'B', ']', '/', 'q'] .none
+      = (orders, .ok (.list .n0 [.list .n0 [.str ['3']], .list .n0 [.str ['6'], .str ['7']]])) := by
+  obtain ⟨n, h⟩ := C06_chained .n0 [(['o'], .list .plain ordersList)] [.key ['o']] ['i'] ['='] _ ['2'] ['2'] ['t'] ['s']
+    ['='] _ ['B'] ['B'] ['q'] .plain ordersList .none ⟨⟨by decide, by decide, by decide⟩, trivial⟩ (by simp) fieldKey_i .eq1
+    (.bare _) plainLit_2 plainKey_t fieldKey_s .eq1 (.bare _) plainLit_B plainKey_q rfl (by decide) (by decide)
+    (by
+      intro c kvs' x hm hl
+      simp only [ordersList, List.mem_cons, List.not_mem_nil, or_false, Val.dict.injEq] at hm
+      rcases hm with ⟨_, rfl⟩ | ⟨_, rfl⟩ | ⟨_, rfl⟩ | ⟨_, rfl⟩ | ⟨_, rfl⟩ | ⟨_, rfl⟩ <;>
+        (first
+          | (simp [lookup] at hl; done)
+          | (simp [lookup] at hl; subst hl; exact ⟨_, _, rfl, by decide, by decide⟩)))
+  refine ⟨n, fun fuel hf => ?_⟩
+  have := (h fuel hf).1
+  rw [show selectChained ['i'] ['t'] (condTest ['=', '='] (.str ['2'])) ['s'] ['q'] (condTest ['=', '='] (.str ['B'])) ordersList
+      = [.list .n0 [.str ['3']], .list .n0 [.str ['6'], .str ['7']]] by decide] at this
+  exact this
+
+/-- (was finding C06-e, repaired by fix C06-e) an outer record with an EMPTY inner list no longer aborts the
+lookup with `IndexError`: the selection of the other order is returned; a predicate on an empty list is a miss -/
+def ordersEmptyInner : Val :=
+  .dict .n0 [(['o'], .list .plain [
+    .dict .plain [(['i'], .str ['1']), (['t'], .list .plain [])],
+    .dict .plain [(['i'], .str ['1']), (['t'], .list .plain [.dict .plain [(['s'], .str ['B']), (['q'], .str ['3'])]])]]),
+    (['e'], .list .plain [])]
+theorem C06_empty_inner_example :
+    (XPath.get 80 ordersEmptyInner ['/', '/', 'o', '[', 'i', '=', '1', ']', '/', 't', '[', 's', '=', 'B', ']', '/', 'q'] (.str ['D'])).2
+      = .ok (.list .n0 [.list .n0 [.str ['3']]])
+    ∧ (XPath.get 80 ordersEmptyInner ['e', '[', 'i', '=', '1', ']', '/', 'q'] (.str ['D'])).2 = .ok (.str ['D'])
+    ∧ (XPath.getItem 80 ordersEmptyInner ['e', '[', 'i', '=', '1', ']', '/', 'q']).2 = .error .IndexError := by
+  decide +kernel
 
 end N0.C06
